@@ -36,6 +36,7 @@ struct SixelParser {
     horizontal_scale: i32,
 
     height_set: bool,
+    min_width: i32,
 }
 
 impl Default for SixelParser {
@@ -48,6 +49,7 @@ impl Default for SixelParser {
             parsed_numbers: Vec::new(),
             state: SixelState::Read,
             height_set: false,
+            min_width: 0,
             picture_data: Vec::new(),
             vertical_scale: 1,
             horizontal_scale: 1,
@@ -62,7 +64,7 @@ impl SixelParser {
         }
         self.parse_char('#')?;
         // the image is a rectangle: all rows are as wide as the widest one
-        let line_len = self.picture_data.iter().map(Vec::len).max().unwrap_or(0);
+        let line_len = self.picture_data.iter().map(Vec::len).max().unwrap_or(0).max(4 * self.min_width as usize);
         let mut picture_data = Vec::with_capacity(line_len * self.picture_data.len());
         for line in &mut self.picture_data {
             line.resize(line_len, 0);
@@ -157,9 +159,8 @@ impl SixelParser {
                     self.vertical_scale = self.parsed_numbers[0];
                     self.horizontal_scale = self.parsed_numbers[1];
                     if self.parsed_numbers.len() == 3 {
-                        let height = self.parsed_numbers[2].min(MAX_SIXEL_HEIGHT);
-                        self.picture_data.resize(height as usize, Vec::new());
-                        self.height_set = true;
+                        // "Pan;Pad;Ph: the third number is the width, no height is declared
+                        self.min_width = self.parsed_numbers[2].min(MAX_SIXEL_WIDTH);
                     }
 
                     if self.parsed_numbers.len() == 4 {
